@@ -74,8 +74,42 @@ def analyse(facts, tier):
                     ok = ('& OPNMIDI_Bank_CreateRt) == OPNMIDI_Bank_CreateRt' in txt)
                     obls.append(Obl('C16.R1', gb.name, 'RT request uses the non-expanding insert', st['loc'], 'discharged' if ok else 'finding', why='guarded by (flags & CreateRt) == CreateRt'))
     # failure of the RT insert is reported
-    okf = any(const_of(st['s'].get('e')) == -1 and any('ir.first' in fact_str(f) and 'end()' in fact_str(f) for f in guard_facts(gb, b, st)) for b, j, st in gb.cfg.returns())
-    obls.append(Obl('C16.R2', gb.name, 'exhausted capacity is reported', gb.loc, 'discharged' if okf else 'finding', why='ir.first == map.end() -> return -1' if okf else 'a failed real-time creation is not reported'))
+    def _insert_result_is_end(f):
+        # `<result of insert> == map.end()`, whatever the result is called: a local assigned from insert(..) / insert(..).first, or ir.first
+        if f[0] == 'truth' and f[2] and short(strip(f[1]).get('callee', '')) == 'operator==' and len(strip(f[1]).get('a', [])) == 2:
+            f = ('cmp', '==', strip(f[1])['a'][0], strip(f[1])['a'][1])       # iterator comparison
+        if f[0] != 'cmp' or f[1] != '==':
+            return False
+        sides = [show(f[2]), show(f[3])]
+        if not any('end()' in x for x in sides):
+            return False
+        other = [x for x in sides if 'end()' not in x]
+        if not other:
+            return False
+        o = other[0]
+        if 'insert(' in o:
+            return True
+        names = {short(y['n']) for y in walk([f[2], f[3]]) if y.get('k') == 'DeclRefExpr' and not y.get('parm')}
+        for b3, j3, st3 in gb.cfg.stmts():
+            for y in walk(st3['s']):
+                ap3 = assign_parts(y)
+                if ap3 and strip(ap3[0]).get('k') == 'DeclRefExpr' and short(strip(ap3[0])['n']) in names and 'insert(' in show(ap3[1]):
+                    return True
+            if st3['s'].get('k') == 'DeclStmt':
+                for v3 in st3['s']['decls']:
+                    if v3['n'] in names and v3.get('init') is not None and 'insert(' in show(v3['init']):
+                        return True
+        return False
+    okf = any(const_of(st['s'].get('e')) == -1 and any(_insert_result_is_end(f) for f in guard_facts(gb, b, st)) for b, j, st in gb.cfg.returns())
+    obls.append(Obl('C16.R2', gb.name, 'exhausted capacity is reported', gb.loc, 'discharged' if okf else 'finding', why='insert result == map.end() -> return -1' if okf else 'a failed real-time creation is not reported'))
+    # creation keeps an existing bank: the entry is obtained through insert(), which returns the existing slot; an assignment through
+    # operator[] would write the blank template over a bank that already exists
+    over = [(st['loc'], show(x)[:60]) for b, j, st in gb.cfg.stmts() for x in walk(st['s'])
+            if assign_parts(x) and short(strip(assign_parts(x)[0]).get('callee', '')) == 'operator[]' and 'BankMap' in (strip(assign_parts(x)[0]).get('callee', '') + show(assign_parts(x)[0]))]
+    over += [(st['loc'], show(x)[:60]) for b, j, st in gb.cfg.stmts() for x in walk(st['s'])
+             if short(x.get('callee', '')) == 'operator=' and x.get('a') and short(strip(x['a'][0]).get('callee', '')) == 'operator[]']
+    obls.append(Obl('C16.R2', gb.name, 'creating an existing bank keeps its instruments', over[0][0] if over else gb.loc, 'finding' if over else 'discharged',
+                    why=('%s overwrites the entry of a bank that already exists with the blank template: its 128 instruments are lost' % over[0][1]) if over else 'banks are created through insert(), which returns an existing entry unchanged'))
 
     # ---- R2
     for fn, name in ((rt, 'non-expanding'), (ex, 'expanding')):
@@ -259,6 +293,27 @@ def analyse(facts, tier):
         obls.append(Obl('C16.R5', it.name, 'running off the last bucket yields end()', it.loc, 'discharged' if oke else 'finding',
                         why='slot member is NULL on every path where index reached hash_buckets' if oke else
                         'a path leaves operator++ with index == hash_buckets but a non-NULL slot: the iterator never compares equal to end() and iteration over the banks does not terminate'))
+    # cached pointers into the slot pool: every member of the map that holds a Slot* (besides the free list and the bucket table) must be
+    # reset by every function that frees slots — clear() as well as erase(); a freed slot keeps its old key, so a stale pointer still "finds" it
+    rec_ = None
+    for rn, r0 in facts.records.items():
+        if rn.startswith('BasicBankMap') and any(f['n'] == 'm_freeslots' for f in r0.get('fields', [])):
+            rec_ = r0
+    if rec_ is None:
+        raise build.AnalysisBroken('C16.R5: record BasicBankMap not found')
+    slot_ptrs = [f['n'] for f in rec_['fields'] if (f.get('t') or {}).get('p') and 'Slot' in ((f['t'].get('pt') or '') + (f['t'].get('s') or '')) and f['n'] not in ('m_freeslots',)]
+    freers = [f for f in facts.all_fns() if f.name.startswith(BM + '::') and f.tree is not None and short(f.name) not in ('free_slot', 'reserve') and
+              any(short(callee_name(x)) == 'free_slot' for b, ex, loc in f.cfg.exprs() for x in calls_in(ex))]
+    if len(freers) < 2:
+        raise build.AnalysisBroken('C16.R5: functions that free slots (erase, clear) not found')
+    for fld in slot_ptrs:
+        for f in freers:
+            okc = any(assign_parts(x) and strip(assign_parts(x)[0]).get('k') == 'MemberExpr' and short(strip(assign_parts(x)[0])['n']) == fld
+                      for b, j, st in f.cfg.stmts() for x in walk(st['s']))
+            obls.append(Obl('C16.R5', f.name, 'cached slot pointer %s invalidated' % fld, f.loc, 'discharged' if okc else 'finding',
+                            why='%s is reset' % fld if okc else
+                            '%s frees slots but leaves %s pointing into them: a later lookup of the old key is answered from the freed slot (a removed or replaced bank is still found)' % (short(f.name), fld)))
+    obls.append(Obl('C16.R5', BM, 'members holding slot pointers', rec_.get('loc', ''), 'discharged', why='m_freeslots%s' % (''.join(', ' + x for x in slot_ptrs)), nontrivial=False))
     # ---- R6
     br = facts.fn(BM + '::bucket_remove')
     cfg = br.cfg
